@@ -137,7 +137,7 @@ def build_extractor_config(flavour, cfg, files, units, bare=()):
 MOD_PRELUDE = ('#[allow(unused_imports)] use vstd::prelude::*;\n'
                '#[allow(unused_imports)] use crate::spec::*;\n'
                '#[allow(unused_imports)] use crate::shims::World;\n'
-               '#[allow(unused_imports)] use crate::shims::iter::IntoIterShim;\n'
+               '#[allow(unused_imports)] use crate::shims::iter::{IntoIterShim, IterShim};\n'
                '#[allow(unused_imports)] use crate::shims::strs::SplitShim;\n'
                'broadcast use {crate::spec::group_spec_axioms, crate::shims::ssri::group_ssri_axioms};\n')
 
